@@ -163,3 +163,5 @@ func must(err error) {
 }
 
 var _ = fmt.Sprint
+
+func writeFile(path string, bs []byte) error { return os.WriteFile(path, bs, 0o644) }
